@@ -272,9 +272,19 @@ class C19(diffcheck.DiffProp):
             return oracle_k2(case, out)
         if k == 3:
             return oracle_k3(case, out)
+        if k == 4:
+            if len(out) != 3:
+                return "malformed harness output"
+            if out[1] == 9:
+                return ("a call accepted by the mailbox between the receiver's drain and its disconnection "
+                        "was never answered although the actor is gone")
+            return None
         return None
 
     def known(self, case, out, what):
+        # identified by the forced schedule (kind 4) only: any other unanswered call is a violation
+        if case[:1] == [4] and "between the receiver's drain and its disconnection" in what:
+            return "C19-late-push"
         return None
 
 
